@@ -250,10 +250,16 @@ class Recorder:
             # "acquisition (lower-confidence-bound) value": every generation is scored with the SAME documented rule
             # z = f_mu - sqrt(beta_t) f_s, beta_t depending on the evaluation count and the DIMENSION only (not on the batch)
             try:
-                if R.cur_es is not None and len(a) >= 1 and (len(a) < 3 or a[2] is None) and k.get("sqrt_beta") is None and np.asarray(out[0]).size:
+                if R.cur_es is not None and len(a) >= 1 and np.asarray(out[0]).size:
                     t = float(a[0]) + 1.0
                     nv = np.asarray(xi).shape[1]
-                    sb = math.sqrt(2 * 0.2 * math.log(nv * t ** 2 * math.pi ** 2 / (6 * 0.1)))
+                    ap = getattr(R, "acq_param", None)     # the CONFIGURED parameter (options['search_acq_fcn'][1]), not what the caller passed on
+                    if ap is None:
+                        sb = math.sqrt(2 * 0.2 * math.log(nv * t ** 2 * math.pi ** 2 / (6 * 0.1)))
+                    elif callable(ap):
+                        sb = float(ap(t, nv))
+                    else:
+                        sb = float(ap)
                     z0, mu0, s0 = (np.asarray(v, dtype=float).reshape(-1) for v in out[:3])
                     want = mu0 - sb * s0
                     ok = np.isnan(want) | (np.abs(z0 - want) <= 1e-9 * (np.abs(want) + np.abs(sb * s0) + 1e-300))
@@ -417,6 +423,11 @@ def run_bads(cfg):
         opts["uncertainty_handling"] = True
         opts["noise_final_samples"] = 0
     opts.update(cfg.get("opts", {}))
+    ACQ = {"zero": 0.0, "two": 2.0, "alt": (lambda t, d: 3.0 if int(t) % 2 else 0.0), "decay": (lambda t, d: 3.0 * 0.9 ** t)}
+    rec.acq_param = None
+    if cfg.get("acq"):
+        rec.acq_param = ACQ[cfg["acq"]]
+        opts["search_acq_fcn"] = ("acq_LCB", rec.acq_param)
     if cfg.get("box") == "odd":
         # hard bounds that are NOT multiples of the search mesh in internal units (-1.337, 1.471): the mesh-rounded
         # box [lb_search, ub_search] is strictly inside the hard box
@@ -474,6 +485,10 @@ def panel(tier_quick, seed):
         dict(D=2, budget=70, cons="none", n_search=96, iters=2, box="odd", opt=16.0, x0=12.0, widen=True),
         # ... and the search mesh COARSENS during the run (search_mesh_expand: after successful searches): the mesh-rounded box
         # must follow the current mesh in both directions
+        # a configured acquisition parameter: the constant 0 (rank by the GP mean), a constant, schedules that change from one evaluation to the next
+        dict(D=2, budget=50, cons="none", n_search=32, iters=2, acq="zero"),
+        dict(D=2, budget=50, cons="none", n_search=32, iters=3, acq="alt"),
+        dict(D=2, budget=50, cons="wband", n_search=48, iters=2, acq="two"),
         dict(D=2, budget=70, cons="none", n_search=64, iters=2, box="odd", obj="lin", narrow_plausible=True, x0=0.5, opts=dict(search_mesh_expand=1)),
         dict(D=2, budget=110, cons="none", n_search=64, iters=2, box="odd", obj="rugged", narrow_plausible=True, x0=0.5),
         # acquisition values replaced by NaN for a random subset of the candidates (from outside): np.argsort ranks NaN last
